@@ -1806,6 +1806,27 @@ def unit_groupby(inj, scratch):
     return dict(functions=[r], dropped=[d], assumptions=['std HashMap: contains_key / get_mut / insert / get behave as a finite map (association-list stand-in)'])
 
 
+def unit_grouprows(inj, scratch):
+    """list_search_results: the block of `if !self.query.grouping_fields.is_empty() {..}` (grouped aggregate output), verbatim, together with the
+    whole partition_output_buffer, on a heap-free shim world."""
+    frag_begin(inj)
+    s = src('src/searcher.rs', scratch)
+    it = s.fn('list_search_results', impl='Searcher')
+    g = s.block_after(r'if\s+!self\.query\.grouping_fields\.is_empty\(\)', s.body_span(it), what='list_search_results: if !self.query.grouping_fields.is_empty()')
+    body = dedent(s.text[g[1]:g[2] + 1])
+    pit = s.fn('partition_output_buffer', impl='Searcher')
+    whole = dedent(s.text[pit['sig_start']:pit['end']])
+    text = ('pub mod grouprows {\npub mod world {\n' + H('frag_grouprows_prelude.rs') + "\nimpl<'a> Searcher<'a> {\n// ---- verbatim: fn partition_output_buffer ----\npub " + whole
+            + '\n// ---- verbatim: the block of `if !self.query.grouping_fields.is_empty()` in list_search_results ----\npub fn frag_grouped_output(&mut self) ' + body + '\n}\n}\n'
+            + H('frag_grouprows.kani.rs') + '\n}\n')
+    inj.new_file(FRAG_FILE, text)
+    r, d = frag_record('grouprows::Searcher::frag_grouped_output', 'src/searcher.rs', 'fn list_search_results / the block of `if !self.query.grouping_fields.is_empty() {..}` (verbatim) + fn partition_output_buffer (verbatim), as methods of a shim Searcher',
+                       body, body, ['String -> one-byte token (its number is the byte); HashMap, Vec, Rc -> heap-free stand-ins with the std method names; format!("{}", v) -> the text of v; write!(stdout(), ..) -> no-op; '
+                                    'get_column_expr_value -> stand-in: the key column reads the per-group map, COUNT(*) counts the rows of the partition it is handed; ResultsWriter -> recorder'],
+                       'the aggregate implementations (C07.*), hashing, the row formatters (C09)')
+    return dict(functions=[r], dropped=[d], assumptions=['std HashMap / Vec::sort_by (stable) / Rc behave as their heap-free stand-ins'])
+
+
 def unit_rowflow(inj, scratch):
     frag_begin(inj)
     s = src('src/searcher.rs', scratch)
